@@ -3,7 +3,7 @@
    Used by the second backend of tools/gen_src.py (Gen/SrcM.v).  Inside module MV every operation of
    the pure kit has a monadic namesake, so that the translator emits the same text for both backends.
    Executable definitions only. *)
-From PowHsm Require Export Py.ValGen Model.Device.
+From PowHsm Require Export Py.ValGen Model.Device Model.Pin.
 
 Inductive xr (A : Type) := XOk (a : A) | XRaise (e : exn) | XStuck.
 Arguments XOk {A} a.
@@ -209,6 +209,22 @@ Definition m_set_comm_issue (v : pv) : pm pv :=
   end.
 
 Definition m_connect : pm pv := pmap (fun _ => VNone) (of_M connect).
+
+(* the PIN object of ledger/pin.py (self.pin) lives in the world: its methods are those of Model/Pin.v *)
+Definition m_pin_get_pin : pm pv := pmap VBytes (of_M pin_get_pin).
+Definition m_pin_needs_change : pm pv := pmap VBool (of_M pin_needs_change_m).
+Definition m_pin_get_new_pin : pm pv :=
+  pmap (fun o => match o with Some b => VBytes b | None => VNone end) (of_M pin_get_new_pin).
+Definition m_pin_start_change : pm pv := pmap (fun _ => VNone) (of_M pin_start_change).
+Definition m_pin_commit_change : pm pv := pmap (fun _ => VNone) (of_M pin_commit_change).
+Definition m_pin_abort_change : pm pv := pmap (fun _ => VNone) (of_M pin_abort_change).
+
+(* try: m  finally: raise e   - whatever m did (value, return, exception) is replaced by e *)
+Definition pfinally_raise {A} (m : pm pv) (e : exn) : pm A :=
+  fun w => match m w with
+           | (XStuck, w') => (XStuck, w')
+           | (_, w') => (XRaise e, w')
+           end.
 Definition m_disconnect : pm pv := pmap (fun _ => VNone) (of_M disconnect).
 
 End MV.
